@@ -248,6 +248,9 @@ type Program struct {
 	Init   []int  `json:"init"`
 	// ContinueOnError: the business code ignores a failed statement / local commit and goes on with the next step
 	ContinueOnError bool `json:"continue_on_error,omitempty"`
+	// KeepTx: with ContinueOnError, a statement that fails inside an explicit local transaction does not end it: the next
+	// statements run in the same local transaction, which is committed at the end of its group
+	KeepTx bool `json:"keep_tx,omitempty"`
 }
 
 func (p Program) Names() string {
